@@ -43,6 +43,17 @@ CLAIMED = {
         note=TB + "No axioms. Name-location theorems over the whole pipeline are not proved yet (checked by the oracle on Go output).",
         tech="Rocq proof (result laws) + error-projection correspondence + location oracle",
         ref="DESIGN.md 5/C17"),
+    "C02": dict(
+        text="Partial. Coq: the Swagger 2.0 schema the code embeds is regenerated on every run as a term of the model (vharness sw20 gen -> "
+             "Gen/Swagger20.v); it decodes, all its references resolve in its environment (vm_compute, re-run every time); the first pass is "
+             "the first stage of the orchestration and its errors are never dropped, in both modes: accepted => the first pass (the L1 "
+             "pipeline on that schema) reported nothing. The last link (first pass valid => draft-4 valid) is the soundness half of C01, "
+             "proved only outside the recorded classes so far, and checked on every document by the L0 oracle. Tie: first pass of Go vs L1 "
+             "over the whole Swagger schema (verdict, (code,name) set, MatchCount) on fixtures, grammar documents and structural edits.",
+        note=TB + "No axioms in the C02 theorems. go-openapi/loads / analysis / spec are not modelled. Known findings inherited from C01 "
+             "(id/$schema exemption, null under composition, numeric tolerance).",
+        tech="Rocq proof (regenerated-term lemmas + orchestration monotonicity) + first-pass correspondence + L0 draft-4 oracle on raw documents",
+        ref="DESIGN.md 5/C02"),
     "C04": dict(
         text="Coq theorems: (generic) a pool client whose fresh run is disciplined - no tenure redeemed twice, no access after the redeem, "
              "every field written before it is read - issues the same commands, reads and outputs the same values on a real pool, for "
